@@ -3,7 +3,8 @@
 usage: tools/confirm_seeded.py /tmp/mut_C01 C01 [extra PIDs to also try, comma separated]"""
 import json, os, shutil, subprocess, sys, glob
 root, pid = sys.argv[1], sys.argv[2]
-also = sys.argv[3].split(",") if len(sys.argv) > 3 else []
+also = [a for a in sys.argv[3].split(",") if a and a != "-"] if len(sys.argv) > 3 else []
+tag = sys.argv[4] if len(sys.argv) > 4 else ""
 HERE = os.path.dirname(os.path.dirname(os.path.abspath(__file__)))
 
 def sh(cmd, cwd=None, timeout=1800):
@@ -20,7 +21,7 @@ for d in sorted(glob.glob(os.path.join(root, "_out", "*"))):
     patch = os.path.join(d, "patch.diff")
     if not os.path.exists(patch):
         continue
-    name = "%s-%s" % (pid, k)
+    name = "%s-%s%s" % (pid, tag, k)
     res = dict(applies=False, tests_pass_with_mutant=False, demo_fails_with_mutant=False, demo_passes_without=False)
     sh("git checkout -- .", cwd=root)
     rc, out = sh("git apply --check %s && git apply %s" % (patch, patch), cwd=root)
